@@ -122,8 +122,24 @@ func (c *memConn) Read(p []byte) (int, error) {
 		c.w.streamBytes = append(c.w.streamBytes, append([]byte(nil), c.req.Bytes()...))
 		c.w.logWrites(c.from)
 		pre := c.w.snapLocal(c.peer)
+		var before map[string]bool
+		var fromLeft map[string]bool
+		if c.w.sc.Oracles.C11 {
+			before = c.w.knownIDs(c.peer)
+			fromLeft = map[string]bool{}
+			for _, md := range c.w.nodes[c.from].State.Nodes() {
+				fromLeft[md.ID] = md.Left
+			}
+		}
 		c.hErr = c.w.nodes[c.peer].sl.VHandleConn(&srvConn{c})
 		c.w.checkLocalUnchanged(c.peer, pre, "stream")
+		if before != nil {
+			for id := range c.w.knownIDs(c.peer) {
+				if !before[id] {
+					c.w.learned = append(c.w.learned, learn{o: c.peer, id: id, via: "stream-request", src: c.from, srcKnewLeft: fromLeft[id]})
+				}
+			}
+		}
 	}
 	if c.resp.Len() == 0 {
 		return 0, io.EOF
@@ -267,6 +283,7 @@ type World struct {
 	cascade  []*Packet // auto-delivery queue of the current event
 	holdUsed int
 	inClosure bool
+	learned   []learn // nodes newly learned during the current event
 
 	// budgets used so far
 	opsUsed    []int
@@ -285,6 +302,23 @@ type World struct {
 	streamBytes [][]byte
 	Stats       *Stats
 	packetLog   map[string][]byte // distinct datagrams seen (corpus for C13)
+}
+
+// learn records that node o first learned about node id from one message.
+type learn struct {
+	o           int
+	id          string
+	via         string
+	src         int  // node that produced the message
+	srcKnewLeft bool // the message shows that its producer knew id had left
+}
+
+func (w *World) knownIDs(i int) map[string]bool {
+	m := map[string]bool{}
+	for _, md := range w.nodes[i].State.Nodes() {
+		m[md.ID] = true
+	}
+	return m
 }
 
 type violation struct {
@@ -588,6 +622,42 @@ func (w *World) deliver(p *Packet) {
 	}
 	nd := w.nodes[p.To]
 	pre := w.snapLocal(p.To)
+	var before map[string]bool
+	if w.sc.Oracles.C11 {
+		before = w.knownIDs(p.To)
+	}
+	defer func() {
+		if before == nil {
+			return
+		}
+		for id := range w.knownIDs(p.To) {
+			if before[id] {
+				continue
+			}
+			l := learn{o: p.To, id: id, src: p.From, via: "delta"}
+			if p.Digest {
+				l.via = "digest"
+				_, d, _ := gossip.VDecodeDigest(p.Data)
+				for _, de := range d {
+					if de.ID == id {
+						l.srcKnewLeft = de.Left
+					}
+				}
+			} else {
+				_, d, _ := gossip.VDecodeDelta(p.Data)
+				for _, de := range d {
+					if de.ID == id {
+						for _, en := range de.Entries {
+							if en.Key == gossip.VLeftKey {
+								l.srcKnewLeft = true
+							}
+						}
+					}
+				}
+			}
+			w.learned = append(w.learned, l)
+		}
+	}()
 	data := append([]byte(nil), p.Data...)
 	if len(data) > w.sc.MaxPacket {
 		// the receiver reads into a buffer of its own max packet size
